@@ -1533,8 +1533,11 @@ def constrain_sum_bounded(x: np.array, s: float, lb: np.array, ub: np.array) -> 
 
     # First, check if the constraint is already satisfied just by multiplicative rescaling
     # The final check for x0_scaled.sum()==1 catches the case where all of the input values are 0
-    if np.all((x0_scaled >= lb_scaled) & (x0_scaled <= ub_scaled)) and np.isclose(x0_scaled.sum(), 1):
-        return x0_scaled * s
+    # The bounds are compared with a small tolerance, because a value that sits exactly on a bound (as proposals clipped by the
+    # optimizer routinely do) can land one rounding error outside of it after the normalization above
+    eps = 1e-12
+    if np.all((x0_scaled >= lb_scaled - eps) & (x0_scaled <= ub_scaled + eps)) and np.isclose(x0_scaled.sum(), 1):
+        return np.minimum(np.maximum(x0_scaled, lb_scaled), ub_scaled) * s
 
     # If not, we need to actually run the constrained optimization
     bounds = [(lower, upper) for lower, upper in zip(lb_scaled, ub_scaled)]
